@@ -277,7 +277,7 @@ static inline Written write_file(const Table& t, const Layout& lay) {
                     int lvl_tag = legacy_bitpacked ? 4 : 3;
                     H.add(1, TV::I32(0));
                     TV DH = TV::Struct(); DH.add(1, TV::I32((int64_t)pe)); DH.add(2, TV::I32(enc)); DH.add(3, TV::I32(lvl_tag)); DH.add(4, TV::I32(lvl_tag));
-                    if (L.page_stats) { std::string mn, mx; bool mm = min_max(col.type, ch.vals, v0, v1, &mn, &mx); if (mm && mn.size() + mx.size() > 60) mm = false; DH.add(5, stats_struct(L.chunk_stats ? L.chunk_stats : 1, mm, mn, mx, (int64_t)(pe - nn))); }
+                    if (L.page_stats) { std::string mn, mx; bool mm = min_max(col.type, ch.vals, v0, v1, &mn, &mx); if (mm && mn.size() + mx.size() > 1200) mm = false; DH.add(5, stats_struct(L.chunk_stats ? L.chunk_stats : 1, mm, mn, mx, (int64_t)(pe - nn))); }
                     if (lay.junk_fields && r.below(4) == 0) add_junk(DH, r);
                     H.add(5, DH);
                     if (lay.junk_fields && r.below(4) == 0) add_junk(H, r);
